@@ -74,17 +74,21 @@ impl<const N: usize> Sodg<N> {
                         break;
                     }
                 }
+                self.enroll(v1, ours);
                 self.vertices.get_mut(v2).unwrap().branch = ours;
                 self.branches.get_mut(ours).unwrap().push(v2);
+                self.enroll(v2, ours);
             } else {
                 vtx1.branch = theirs;
                 self.branches.get_mut(theirs).unwrap().push(v1);
+                self.enroll(v1, theirs);
             }
         } else {
             let vtx2 = self.vertices.get_mut(v2).unwrap();
             if vtx2.branch == BRANCH_STATIC {
                 vtx2.branch = ours;
                 self.branches.get_mut(ours).unwrap().push(v2);
+                self.enroll(v2, ours);
             }
         }
         #[cfg(debug_assertions)]
@@ -118,11 +122,23 @@ impl<const N: usize> Sodg<N> {
     #[inline]
     pub fn put(&mut self, v: usize, d: &Hex) {
         let vtx = self.vertices.get_mut(v).unwrap();
+        let unread = vtx.persistence == Persistence::Stored;
         vtx.persistence = Persistence::Stored;
         vtx.data = d.clone();
-        *self.stores.get_mut(vtx.branch).unwrap() += 1;
+        if !unread && vtx.branch != BRANCH_STATIC {
+            *self.stores.get_mut(vtx.branch).unwrap() += 1;
+        }
         #[cfg(debug_assertions)]
         trace!("#put: data of ν{v} set to {d}");
+    }
+
+    /// Count the data of `v`, if it has not been read yet, as an unread
+    /// datum of the branch `b`, which `v` has just joined.
+    #[inline]
+    fn enroll(&mut self, v: usize, b: usize) {
+        if self.vertices.get(v).unwrap().persistence == Persistence::Stored {
+            *self.stores.get_mut(b).unwrap() += 1;
+        }
     }
 
     /// Read vertex data, and then submit the vertex to garbage collection.
@@ -159,6 +175,11 @@ impl<const N: usize> Sodg<N> {
                 let d = vtx.data.clone();
                 vtx.persistence = Persistence::Taken;
                 let branch = vtx.branch;
+                if branch == BRANCH_STATIC {
+                    #[cfg(debug_assertions)]
+                    trace!("#data: data of ν{v} retrieved");
+                    return Some(d);
+                }
                 let s = self.stores.get_mut(branch).unwrap();
                 *s -= 1;
                 if *s == 0 {
